@@ -428,8 +428,9 @@ class Inspector:
         self.extensions.call("on_function_node", node=node, agent=self)
 
         try:
-            # Class methods are fetched bound to their class: use the underlying function to keep the `cls` parameter.
-            signature = getsignature(node.obj.__func__ if node.is_classmethod else node.obj)
+            # Class methods are fetched bound to their class: use the underlying function to keep the `cls` parameter
+            # (a class method wrapped with `functools.wraps` was already unwrapped down to the function itself).
+            signature = getsignature(getattr(node.obj, "__func__", node.obj) if node.is_classmethod else node.obj)
         except Exception:  # noqa: BLE001
             # So many exceptions can be raised here:
             # AttributeError, NameError, RuntimeError, ValueError, TokenError, TypeError...
